@@ -14,6 +14,11 @@ func (fr *frame) runDefers(x *ssa.RunDefers) {
 	fr.runDeferStack(x)
 }
 
+// havocCaptures havocs what a closure value may assign among its captured variables
+func (fr *frame) havocCaptures(fv Val) {
+	fr.havocCapturesOf(fv)
+}
+
 func (fr *frame) goStmt(x *ssa.Go) {
 	// Goroutines are not modelled. Interference of other threads with shared state is outside
 	// the sequential model everywhere; what a spawned goroutine communicates back through
@@ -21,7 +26,11 @@ func (fr *frame) goStmt(x *ssa.Go) {
 	// later, e.g. after wg.Wait()).
 	u := fr.u
 	u.note("%s: go statement: the variables captured by the goroutine are havoc'd, its other effects are concurrent effects (not modelled)", fr.fn.Name())
-	fv := fr.val(x.Call.Value)
+	fr.havocCapturesOf(fr.val(x.Call.Value))
+}
+
+func (fr *frame) havocCapturesOf(fv Val) {
+	u := fr.u
 	for i, b := range fv.binds {
 		if fv.fn == nil || i >= len(fv.fn.FreeVars) {
 			break
